@@ -1,4 +1,43 @@
 import OsloModel.Proto
+import OsloModel.Net
+open Oslo Oslo.Net Oslo.Proto
 
--- stub: replaced by the real driver of this property group
-def main : IO Unit := Oslo.Proto.serve (fun _ => "bad-request")
+def b (x : Bool) : String := if x then "1" else "0"
+
+def showInt : Option Int → String
+  | none => "E"
+  | some v => toString v
+
+/-- all validators on one str argument:
+    `ipv4 ipv6 ip cidr cidr6 mac port icmp_type icmp_code int()` -/
+def onStr (s : List Char) : String :=
+  String.intercalate " " [
+    b (isValidIPv4 s), b (isValidIPv6 s), b (isValidIP s), b (isValidCidr s),
+    b (isValidIPv6Cidr s), b (isValidMac s), b (isValidPort (.str s)),
+    b (isValidIcmpType (.str s)), b (isValidIcmpCode (.str s)), showInt (pyInt s)]
+
+def onVal (v : PyVal) : String :=
+  String.intercalate " " [b (isValidPort v), b (isValidIcmpType v), b (isValidIcmpCode v)]
+
+def showGroups : Option (List Nat) → String
+  | none => "E"
+  | some g => String.intercalate "," (g.map toString)
+
+def handle : List String → String
+  | ["str", h] =>
+    match unhexChars h with
+    | some s => onStr s
+    | none => "bad-request"
+  | ["int", n] =>
+    match n.toInt? with
+    | some v => onVal (.int v)
+    | none => "bad-request"
+  | ["none"] => onVal .none
+  -- white-box: the parsed value (octets / groups) of the two address parsers
+  | ["parse", h] =>
+    match unhexChars h with
+    | some s => showGroups (pton4 s) ++ " " ++ showGroups (pton6 s)
+    | none => "bad-request"
+  | _ => "bad-request"
+
+def main : IO Unit := serve handle
